@@ -6,6 +6,7 @@ import NeoFS.Driver.Arith
 import NeoFS.Driver.Timers
 import NeoFS.Driver.Gov
 import NeoFS.Driver.Meta
+import NeoFS.Driver.Dump
 open NeoFS NeoFS.Driver
 
 /-- State of all stateful models; pure models need none. -/
@@ -23,6 +24,7 @@ def stepLine (s : DState) (line : String) : DState × String :=
   | "grace" => (s, graceStep o)
   | "arith" => (s, arithStep o)
   | "gov" => (s, govStep o)
+  | "dump" => (s, dumpStep o)
   | "meta" => let (m, out) := metaStep s.metaSt o; ({ s with metaSt := m }, out)
   | "timers" => let (t, out) := timersStep s.timers o; ({ s with timers := t }, out)
   | _ => (s, "=> bad-op")
